@@ -4,6 +4,7 @@ go 1.19
 
 require (
 	github.com/anishathalye/porcupine v1.3.0
+	github.com/gorilla/mux v1.7.4
 	github.com/openebs/jiva v0.0.0
 	github.com/openebs/sparse-tools v1.1.0
 	github.com/rancher/go-rancher v0.1.1-0.20190307222549-9756097e5e4c
@@ -20,7 +21,6 @@ require (
 	github.com/google/uuid v1.2.0 // indirect
 	github.com/gorilla/context v1.1.1 // indirect
 	github.com/gorilla/handlers v1.4.2 // indirect
-	github.com/gorilla/mux v1.7.4 // indirect
 	github.com/gorilla/websocket v1.4.1 // indirect
 	github.com/matttproud/golang_protobuf_extensions v1.0.1 // indirect
 	github.com/natefinch/lumberjack v2.0.0+incompatible // indirect
